@@ -46,6 +46,8 @@ AllWeak == {"hasNode", "initialized", "notDeleting", "notMarked", "notNominated"
 \* ---------------------------------------------------------------- the base node: X is the method's best candidate
 BasePod == [key |-> "default/px", active |-> TRUE, dndKind |-> "none", dndSec |-> -1, started |-> 100, evictKind |-> TRUE,
             npdb |-> 0, pdbAllowed |-> 1, pdbWaived |-> FALSE, resched |-> TRUE]
+\* a second plain pod: keeps X non-empty when its first pod is made terminal (only emptiness wants X empty)
+PlainPod == [BasePod EXCEPT !.key = "default/pxb"]
 DsPod == [key |-> "default/dsx", active |-> TRUE, dndKind |-> "true", dndSec |-> -1, started |-> 100, evictKind |-> TRUE,
           npdb |-> 0, pdbAllowed |-> 1, pdbWaived |-> FALSE, resched |-> FALSE]
 Base(mm) == [managed |-> TRUE, hasNode |-> TRUE, initialized |-> TRUE, deleting |-> FALSE, nodeDeleting |-> FALSE,
@@ -96,7 +98,9 @@ Apply(b, vv, t) ==
       [] b = "podDndDurExpired"   -> Pod1(vv, LAMBDA p : [p EXCEPT !.dndKind = "dur", !.dndSec = DD, !.started = T0 - DD])
       [] b = "podDndNoStart"      -> Pod1(vv, LAMBDA p : [p EXCEPT !.dndKind = "dur", !.dndSec = DD, !.started = -1])
       [] b = "podDndInvalid"      -> Pod1(vv, LAMBDA p : [p EXCEPT !.dndKind = "invalid"])
-      [] b = "podDndTerminal"     -> Pod1(vv, LAMBDA p : [p EXCEPT !.dndKind = "true", !.active = FALSE, !.resched = FALSE])
+      [] b = "podDndTerminal"     -> IF Len(vv.pods) = 0 THEN vv
+                                     ELSE LET w1 == Pod1(vv, LAMBDA p : [p EXCEPT !.dndKind = "true", !.active = FALSE, !.resched = FALSE])
+                                          IN IF m = "emptiness" THEN w1 ELSE [w1 EXCEPT !.pods = Append(@, PlainPod)]
       [] b = "dsPodDnd"           -> IF vv.hasNode THEN [vv EXCEPT !.pods = Append(@, DsPod)] ELSE vv
       [] b = "pdbZero"            -> Pod1(vv, LAMBDA p : [p EXCEPT !.npdb = 1, !.pdbAllowed = 0])
       [] b = "pdbOk"              -> Pod1(vv, LAMBDA p : [p EXCEPT !.npdb = 1, !.pdbAllowed = 1])
